@@ -28,6 +28,7 @@ import (
 	sekaitypes "github.com/KiraCore/sekai/types"
 	abcitypes "github.com/cometbft/cometbft/abci/types"
 	simtestutil "github.com/cosmos/cosmos-sdk/testutil/sims"
+	sdk "github.com/cosmos/cosmos-sdk/types"
 	"github.com/cosmos/cosmos-sdk/types/module"
 )
 
@@ -40,24 +41,43 @@ func newChainFromExport(src *abci.Chain, state []byte) (*abci.Chain, string) {
 // Schedule: how the restart is carried out relative to the export (block time T, height h): the new
 // chain's genesis time is T + Later seconds, its InitialHeight h + 1 + Higher.
 type Schedule struct {
-	Name   string `json:"name"`
-	Later  int64  `json:"later_s"`
-	Higher int64  `json:"higher_blocks"`
+	Name    string `json:"name"`
+	Later   int64  `json:"later_s"`
+	Higher  int64  `json:"higher_blocks"`
+	LaterNs int64  `json:"later_ns,omitempty"` // instead of Later: nanoseconds (deadline boundaries)
+}
+
+func (sc Schedule) shift() time.Duration {
+	if sc.LaterNs != 0 {
+		return time.Duration(sc.LaterNs)
+	}
+	return time.Duration(sc.Later) * time.Second
+}
+
+// nextDeadlineNanos: distance from t to the earliest later deadline (0: none within a day)
+func nextDeadlineNanos(t time.Time, deadlines []time.Time) int64 {
+	best := int64(0)
+	for _, d := range deadlines {
+		if d.After(t) && d.Sub(t) < 24*time.Hour && (best == 0 || int64(d.Sub(t)) < best) {
+			best = int64(d.Sub(t))
+		}
+	}
+	return best
 }
 
 // every pending deadline of the populated states (voting / enactment ends: minutes; unjail window, claim
 // expiry, unstaking period: days; UBI period: 30 days) lies before T + 35 days
 var Schedules = []Schedule{
-	{"same-time", 0, 0},
-	{"later-7s", 7, 0},
-	{"later-35d", 3000000, 0},
-	{"higher-1000", 0, 1000},
-	{"later-35d-higher-1000", 3000000, 1000},
+	{"same-time", 0, 0, 0},
+	{"later-7s", 7, 0, 0},
+	{"later-35d", 3000000, 0, 0},
+	{"higher-1000", 0, 1000, 0},
+	{"later-35d-higher-1000", 3000000, 1000, 0},
 }
 
 func newChainFromExportAt(src *abci.Chain, state []byte, sc Schedule) (*abci.Chain, string) {
 	app, enc := abci.NewApp()
-	c := &abci.Chain{App: app, Enc: enc, Accounts: src.Accounts, Validators: src.Validators, Time: src.Time.Add(time.Duration(sc.Later) * time.Second)}
+	c := &abci.Chain{App: app, Enc: enc, Accounts: src.Accounts, Validators: src.Validators, Time: src.Time.Add(sc.shift())}
 	p := hx.Try(func() {
 		c.App.InitChain(abcitypes.RequestInitChain{ChainId: abci.ChainID, Time: c.Time, Validators: []abcitypes.ValidatorUpdate{},
 			ConsensusParams: simtestutil.DefaultConsensusParams, AppStateBytes: state, InitialHeight: src.Height + 1 + sc.Higher})
@@ -213,6 +233,7 @@ type Case struct {
 	Export2      []string   `json:"second_export_differs_in"`
 	Probes       []Probe    `json:"probes"`
 	Scheduled    []SchedRun `json:"restart_schedules"`
+	Deadlines    []time.Time `json:"-"`
 	Orders       []OrderRun `json:"permuted_genesis_imports"`
 	Snap         [2]Snap    `json:"snapshots"`
 }
@@ -235,6 +256,23 @@ func classify(store string, key []byte) string {
 	return table.Classify(store, key)
 }
 
+// every mounted KV store (abci.StoreNames names the evidence store "evidence"; it is mounted as "customevidence")
+var storeNames = append(append([]string{}, abci.StoreNames...), "customevidence")
+
+func dumpStores(c *abci.Chain, ctx sdk.Context) map[string][]abci.KV {
+	out := c.DumpStores(ctx)
+	if key := c.App.GetKey("customevidence"); key != nil {
+		it := ctx.KVStore(key).Iterator(nil, nil)
+		var kvs []abci.KV
+		for ; it.Valid(); it.Next() {
+			kvs = append(kvs, abci.KV{K: append([]byte{}, it.Key()...), V: append([]byte{}, it.Value()...)})
+		}
+		it.Close()
+		out["customevidence"] = kvs
+	}
+	return out
+}
+
 func diffStores(a, b map[string][]abci.KV) ([]Diff, [][]string) {
 	type ck struct{ kind, store, class string }
 	agg := map[ck]*Diff{}
@@ -251,7 +289,7 @@ func diffStores(a, b map[string][]abci.KV) ([]Diff, [][]string) {
 		}
 		d.N++
 	}
-	for _, store := range abci.StoreNames {
+	for _, store := range storeNames {
 		ma := map[string][]byte{}
 		for _, kv := range a[store] {
 			ma[string(kv.K)] = kv.V
@@ -338,7 +376,7 @@ func runCase(idx int, seed uint64, f Features) Case {
 	if mod, msg := preflightExport(c); mod != "" {
 		cs.ExportPanic = mod + ": " + msg
 		cs.ExportPanicModule = mod
-		_, cs.Populated = diffStores(c.DumpStores(c.QueryCtx()), map[string][]abci.KV{})
+		_, cs.Populated = diffStores(dumpStores(c, c.QueryCtx()), map[string][]abci.KV{})
 		return cs
 	}
 	state, p := c.Export()
@@ -362,12 +400,12 @@ func runCase(idx int, seed uint64, f Features) Case {
 		if strings.Contains(p2, "is already registered by") {
 			cs.ImportPanicClass = "identity-unique-key"
 		}
-		_, cs.Populated = diffStores(c.DumpStores(c.QueryCtx()), map[string][]abci.KV{})
+		_, cs.Populated = diffStores(dumpStores(c, c.QueryCtx()), map[string][]abci.KV{})
 		return cs
 	}
 	// c2 is not committed (as after a real InitChain): its deliver state holds the imported genesis
 	uncommitted[c2] = true
-	da, db := c.DumpStores(c.QueryCtx()), c2.DumpStores(c2.Ctx())
+	da, db := dumpStores(c, c.QueryCtx()), dumpStores(c2, c2.Ctx())
 	cs.Diffs, cs.Populated = diffStores(da, db)
 	cs.Snap[0], cs.Snap[1] = TakeSnap(c), TakeSnap(c2)
 	// second export
@@ -406,18 +444,29 @@ func runCase(idx int, seed uint64, f Features) Case {
 			continue
 		}
 		uncommitted[bp] = true
-		run.Diffs, _ = diffStores(db, bp.DumpStores(bp.Ctx()))
+		run.Diffs, _ = diffStores(db, dumpStores(bp, bp.Ctx()))
 		bu, _ := newChainFromExport(c, patched)
 		uncommitted[bu] = true
 		run.Probes = RunProbes(bu, bp, f, false)
 		cs.Orders = append(cs.Orders, run)
 	}
+	c0Time := c.Time
+	if props, err := c.App.CustomGovKeeper.GetProposals(c.QueryCtx()); err == nil {
+		for _, p := range props {
+			cs.Deadlines = append(cs.Deadlines, p.VotingEndTime, p.EnactmentEndTime)
+		}
+	}
 	appHash := fmt.Sprintf("%x", c.App.LastCommitID().Hash)
 	cs.Probes = RunProbes(c, c2, f, false)
 	// further restart schedules: the history is replayed on a fresh original chain (the first one has
 	// moved on), exported, re-imported later / higher, and both get the same further blocks
-	for si, sc := range Schedules {
-		if si == 0 || !(allSchedules || idx == 0 || 1+(idx%(len(Schedules)-1)) == si) {
+	// restarts exactly at / one nanosecond after the next pending proposal deadline (voting or enactment end)
+	scheds := append([]Schedule{}, Schedules...)
+	if ns := nextDeadlineNanos(c0Time, cs.Deadlines); ns > 0 {
+		scheds = append(scheds, Schedule{Name: "at-next-deadline", LaterNs: ns}, Schedule{Name: "next-deadline+1ns", LaterNs: ns + 1})
+	}
+	for si, sc := range scheds {
+		if si == 0 || !(allSchedules || idx == 0 || 1+(idx%(len(scheds)-1)) == si) {
 			continue
 		}
 		run := SchedRun{Schedule: sc}
@@ -427,7 +476,7 @@ func runCase(idx int, seed uint64, f Features) Case {
 		// encoding marshals a Go map in random order, a C01 finding)
 		run.ReplayOK = a.Height == cs.Height
 		if fmt.Sprintf("%x", a.App.LastCommitID().Hash) != appHash {
-			ds, _ := diffStores(da, a.DumpStores(a.QueryCtx()))
+			ds, _ := diffStores(da, dumpStores(a, a.QueryCtx()))
 			for _, d := range ds {
 				if d.Store != "custody" {
 					run.ReplayOK = false
@@ -483,6 +532,10 @@ func main() {
 		if i == 0 {
 			f = AllFeatures()
 		}
+		if i == 1 { // second scripted history: everything, plus an upgrade that executes before the export
+			f = AllFeatures()
+			f.UpgradeExecuted, f.Upgrade, f.ExtraBlocks = true, false, 3
+		}
 		cs := runCase(i, seed*1000+uint64(i), f)
 		cases = append(cases, cs)
 		for _, s := range cs.Steps {
@@ -498,6 +551,9 @@ func main() {
 		}
 		for _, d := range cs.Diffs {
 			dist.Inc("diff:" + d.Kind + ":" + d.Store + "/" + d.Class)
+		}
+		for _, pc := range cs.Populated {
+			dist.Inc("class:" + pc[0] + "/" + pc[1])
 		}
 		if *verbose {
 			fmt.Printf("== case %d height %d export panic %q import panic %q / patched %q\n", i, cs.Height, cs.ExportPanic, cs.ImportPanic, cs.ImportPanic2)
